@@ -1159,11 +1159,42 @@ Definition ex_ops : list op :=
     OUtf TA 8364; OGetc TA; OGetn TA true 2;
     OSetn TA 3; OCmp TA; OSwap; OExit TA; OExit TB ].
 
+(* a decision procedure for the preconditions, so that examples are checked by computation *)
+Definition fitsb (s : str) (k : N) : bool := num s + k + 8 <? W64.
+Definition op_okb (o : op) (m : mstate) : bool :=
+  match o with
+  | OSetm t n => n + 8 <? W64
+  | OSetm_ t n => (n + 8 <? W64) && (num (sel t m) <=? n)
+  | OSetn_ t n => n <=? mem (sel t m)
+  | OCatc t _ | OCatc_ t _ => fitsb (sel t m) 2
+  | OCatn t d | OCatn_ t d => fitsb (sel t m) (len d + 1)
+  | OCats t d | OCats_ t d => fitsb (sel t m) (len (cstr d) + 1)
+  | OCat t self | OCat_ t self => fitsb (sel t m) (num (if self then sel t m else oth t m) + 1)
+  | OCatf t out => fitsb (sel t m) (len out + 1) && (len out <? 2147483647)
+  | OUtf t _ => fitsb (sel t m) 7
+  | OExit t => fitsb (sel t m) 1
+  | _ => true
+  end.
+Fixpoint ops_okb (ops : list op) (m : mstate) : bool :=
+  match ops with
+  | [] => true
+  | o :: r => op_okb o m && ops_okb r (fst (fst (step o m)))
+  end.
+
+Lemma op_okb_sound o m : op_okb o m = true -> op_ok o m.
+Proof. destruct o; cbn [op_okb op_ok]; unfold fitsb, fits; intros; try exact I; lia. Qed.
+
+Lemma ops_okb_sound : forall ops m, ops_okb ops m = true -> ops_ok ops m.
+Proof.
+  induction ops as [|o ops IH]; intros m H; cbn [ops_okb ops_ok] in *; [exact I|].
+  apply andb_true_iff in H. destruct H as [H1 H2]. split; [now apply op_okb_sound|now apply IH].
+Qed.
+
 Example ex_ops_ok : ops_ok ex_ops (m_init []).
-Proof. cbn. rewrite W64_val. repeat split; vm_compute; reflexivity. Qed.
+Proof. apply ops_okb_sound. vm_compute. reflexivity. Qed.
 
 Example ex_ops_ok_failing_allocator : ops_ok ex_ops (m_init [true; false; true; false]).
-Proof. cbn. rewrite W64_val. repeat split; vm_compute; reflexivity. Qed.
+Proof. apply ops_okb_sound. vm_compute. reflexivity. Qed.
 
 Example ex_run :
   map fst (snd (run ex_ops (m_init []))) =
